@@ -792,7 +792,7 @@ class Lower:
             return t
         return x
 
-    def default_call(self, label, n, argnodes, objnode=None, sig=''):
+    def default_call(self, label, n, argnodes, objnode=None, sig='', objx=None):
         """DESIGN.md 2.2 default rule: an unmodelled library call returns a nondeterministic value, havocs every object it
         receives by non-const reference/pointer and may raise; Pistache callees only if the unit lists them as assumed"""
         if not getattr(self.u, 'DEFAULT_RULE', False):
@@ -807,13 +807,18 @@ class Lower:
             T = a.get('type') or {}
             qt = T.get('qualType', '')
             ct = self.ctype(T)
-            x = self.E(a)
+            x = objx if (kind == 'this' and objx is not None) else self.E(a)    # the object expression was evaluated by the caller: once only
             isconst = bool(re.search(r'\bconst\b', qt.split('*')[0]))
             if kind == 'this' and re.search(r'\)\s*const\b', sig or ''):
                 isconst = True
             if any(label.startswith(p) for p in getattr(self.u, 'ASSUME_PURE', [])):
                 isconst = True       # assumed contract: a pure lookup, nothing it receives is modified
             pn = 'p%d' % i
+            if ct.startswith('struct closure_') and x.startswith('VS_LAM('):
+                # a lambda handed to an unmodelled call: only its existence is passed on (the callee may run it or not: not modelled)
+                params.append('const void *%s' % pn)
+                argl.append('(const void *)' + x[len('VS_LAM('):-1].split(',')[-1].strip())
+                continue
             if ct.startswith('struct') and not ct.endswith('*'):
                 if a.get('valueCategory') in ('lvalue', 'xvalue'):
                     if re.match(r'^\(?\w+\(.*\)\)?$', x) and not x.startswith('(*') or not self.is_lvalue_text(x):
@@ -914,7 +919,7 @@ class Lower:
             name = self.stubs.get(key + '|' + self.qt(me)) or self.stubs.get(rkey) or self.stubs.get(akey) or self.stubs.get(key)
             if name is None:
                 label = self.ast.qname(tgt) if tgt is not None else key
-                x = self.default_call(label, n, ins[1:], objnode=obj, sig=self.qt(tgt) if tgt is not None else '')
+                x = self.default_call(label, n, ins[1:], objnode=obj, sig=self.qt(tgt) if tgt is not None else '', objx=eo)
                 if x is not None:
                     return x
                 raise Abort('member call %s [%s] (or key %r): neither lowered nor stubbed (in %s, line %s)' % (key, self.qt(me), rkey, self.cur_fn, Ast.where(n)[1]))
@@ -1116,8 +1121,6 @@ class Lower:
     def e_LambdaExpr(self, n):
         """a lambda written in an argument position: lowered like a declared one (closure object + function), named lam<N>; the
         expression denotes the pair VS_LAM(function, &closure), which the algorithm stubs apply with VS_CALL1/VS_CALL2"""
-        if self.cur_spec.get('hoist_all') and self.loop_depth:
-            raise Abort('lambda expression in a loop of a hoist_all function (%s)' % self.cur_fn)
         self.lam_ord = getattr(self, 'lam_ord', {})
         k = self.lam_ord.get(self.cur_fn, 0)
         self.lam_ord[self.cur_fn] = k + 1
@@ -1621,7 +1624,7 @@ class Lower:
         ret = self.ctype(rq)
         self.cur_ret = ret
         self.ret_is_ref = rq.endswith('&')
-        ps = ', '.join(['const struct %s *cl' % cname] + ['%s %s' % (self.ctype(p['type']), p['name']) for p in params_of(op)])
+        ps = ', '.join(['const struct %s *cl' % cname] + ['%s %s' % (self.ctype(p['type']), p.get('name') or 'vs_unnamed%d' % i) for i, p in enumerate(params_of(op))])
         body = self.S(body_of(op), 0)
         if has_this:
             body = '{\n    %s this = cl->this_;\n' % [self.ctype(f['type']) for nm, _, _, f in capinfo if nm == 'this'][0] + body[2:]
@@ -1752,6 +1755,8 @@ class Lower:
         self.cur_q = self.ast.qname(d)
         self.cur_spec = spec
         self.loop_ord = 0
+        self.lam_ord = {}
+        self.rename_id = {}
         self.captures = {}
         self.closures = []
         self.pre = []
